@@ -43,6 +43,7 @@ fn run(a: &[String]) -> String {
         "evm_leak" => scenarios::evm_leak(&a[1]),
         "transfer_sum" => scenarios::transfer_sum(&a[1]),
         "inspector_transparency" => scenarios::inspector_transparency(),
+        "gas_inspector_differential" => scenarios::gas_inspector_differential(),
         "selfdestruct_notify" => scenarios::selfdestruct_notify(),
         "bytecode_accessors" => scenarios::bytecode_accessors(),
         "block_state_kernel" => scenarios::block_state_kernel(),
